@@ -35,8 +35,10 @@ ASSUMPTIONS = [
     'reference integrator behind myokit.Simulation (DESIGN 2.2); myokit\'s '
     'pure-Python PacingSystem decides when the pace variable switches',
     'duration > period and two events with the same start are refused by '
-    'myokit itself (rejections); overlapping dataset infusions are outside '
-    'the documented domain of event protocols and are not generated',
+    'myokit itself (rejections); explicit protocols with overlapping '
+    'events are generated in the cumulative family only (open finding '
+    'KF-C10-explicit-protocol-overlap), overlapping dataset dose rows in '
+    'the dataset family',
     'final-time convention: an event starting exactly at the final time is '
     'listed (asserted by the repository\'s own tests)',
     'the dose-free re-data step uses frames sorted by time (the likelihood documents increasing times)',
@@ -54,23 +56,33 @@ REQUIRED = {'cumulative_input_probes': 400, 'regimen_tables_compared': 50,
             'elimination_on_cases': 20}
 
 
-def gen_regimen(rng, t_max):
-    kind = ['single', 'finite', 'indefinite', 'protocol'][
-        int(rng.integers(4))]
+def gen_regimen(rng, t_max, allow_overlap=False):
+    kind = ['single', 'finite', 'indefinite', 'protocol',
+            'protocol_overlap'][int(rng.integers(5))]
+    if kind == 'protocol_overlap' and not allow_overlap:
+        kind = 'protocol'
     dose = float(rng.uniform(0.5, 5))
     start = float(rng.choice([0.0, 0.0, rng.uniform(0, 0.6 * t_max)]))
     duration = float(rng.choice([0.01, rng.uniform(0.05, 0.4)]))
     if kind == 'single':
         return kind, dict(dose=dose, start=start, duration=duration), \
             [(start, duration, dose)]
-    if kind == 'protocol':
+    if kind in ('protocol', 'protocol_overlap'):
         n = int(rng.integers(1, 4))
+        if kind == 'protocol_overlap':
+            n = max(n, 2)
         starts = np.sort(rng.uniform(0, t_max, size=n))
         ev, p = [], myokit.Protocol()
         last_end = -1.0
-        for s in starts:
+        for i_ev, s in enumerate(starts):
             s = float(max(s, last_end + 0.05))
             d = float(rng.uniform(0.02, 0.3))
+            if kind == 'protocol_overlap' and i_ev == 1:
+                # the second event starts while the first one is active (a
+                # bolus during an infusion): the scheduled doses add up
+                s0, d0, _ = ev[0]
+                s = float(s0 + d0 * rng.uniform(0.2, 0.6))
+                d = float(d0 * rng.uniform(0.1, 0.3))
             a = float(rng.uniform(0.5, 4))
             p.add(myokit.ProtocolEvent(a / d, s, d))
             ev.append((s, d, a))
@@ -136,7 +148,7 @@ def cumulative_case(ctx, rng, idx):
     m, am, comp, var, code = _make_model(rng, idx)
     direct = bool(rng.integers(2))
     t_max = float(rng.uniform(0.5, 4.0))
-    kind, kw, ev = gen_regimen(rng, t_max)
+    kind, kw, ev = gen_regimen(rng, t_max, allow_overlap=True)
     boundary = 'none'
     if kind in ('finite', 'indefinite') and rng.random() < 0.3:
         t_max = float(kw['start'] + 0.5 * kw['period'])     # < one period
@@ -215,7 +227,7 @@ def cumulative_case(ctx, rng, idx):
     else:
         got = sorted((e.start(), e.duration(), e.level() * e.duration(),
                       e.period(), e.multiplier()) for e in rep.events())
-        if kind in ('single', 'protocol'):
+        if kind in ('single', 'protocol', 'protocol_overlap'):
             want = sorted((s, d, a, 0, 0) for s, d, a in ev)
         elif kw['num'] == 0:
             want = []
